@@ -415,7 +415,7 @@ CHECKS["C11"] = {
 
 CHECKS["C19"] = {
     "level": "model_checking",
-    "technique": "exhaustive call-level and callback-level (nested) interleaving of several parsers sharing one configuration, with all shared memory write-protected, on the real code",
+    "technique": "exhaustive call-level and callback-level (nested) interleaving of several parsers sharing one configuration, with all shared memory write-protected, plus every interleaving of the library's hooked process-global calls (umask) between two real threads under a controlled scheduler, on the real code",
     "level_text": "The library has no synchronisation points a scheduler could hook, so what is decided exhaustively is the non-interference that makes every thread schedule equivalent to a serial "
                   "one: (1) the configuration, its hook lists and libhtp's own .data/.bss (the shared object's writable segment) are mprotect()ed read-only during the whole exploration - a single "
                   "write by any parser execution faults deterministically and is reported with its address; (2) for 14 exchanges that exercise every subsystem, every ordered pair of parsers "
@@ -424,7 +424,7 @@ CHECKS["C19"] = {
                   "its solo observation and no allocation may be left. (3) Process-global state: the only process-wide call the library makes while parsing, umask() around mkstemp() of an extracted file, is hooked (--wrap) and "
                   "turned into a scheduling point; two real threads parse a file upload and EVERY interleaving of their umask() calls is enforced; the process umask must be unchanged after each. "
                   "(4) Supporting, sampling only: 8 threads x all captures x 20 rounds free-running under ThreadSanitizer.",
-    "level_note": "Instruction-level thread schedules are not enumerated (no scheduling points exist); the argument is non-interference by write-protection + exhaustive call/callback-level "
+    "level_note": "Instruction-level thread schedules are not enumerated: the library has no lock, atomic or condition wait to hook; its only process-global accesses were the umask() calls around mkstemp(), which umaskmc turns into scheduling points (after repair FX-UMASK none is left and the engine reports 0 schedules). Otherwise the argument is non-interference by write-protection + exhaustive call/callback-level "
                   "interleaving. The TSan pass is a sample and is labelled so. zlib and libc are outside the protected regions.",
     "design_ref": "DESIGN.md §6 C19",
     "rule": "ordered parser pairs x all interleavings of their call sequences + all (callback, pending call) nesting points; triples x all interleavings; distinct = distinct per-parser callback traces",
